@@ -473,6 +473,9 @@ struct ApiWorld : World {
                             it = L(seg_iter_next(it));
                         }
                     }
+                } else if ((what == "lattice" || what == "nbest" || what == "nbest_abandon") && s.d->search &&
+                           fsg_history_n_entries(((fsg_search_t *)s.d->search)->history) > 25000) {
+                    out.probes["lat.skipped_too_many_word_exits"]++; // (lattice construction time is out of scope, see world_dec.cc)
                 } else if (what == "lattice") {
                     lattice_t *dag = L(decoder_lattice(s.d));
                     out.events.i64(dag ? dag->n_nodes : -1);
